@@ -572,6 +572,49 @@ fn mode_asg(args: &Args) {
     }
 }
 
+/// Long searches on larger structured models (n-queens with free auxiliary variables): too large for
+/// the enumerating oracle, so every solution handed out is judged for totality (no unassigned
+/// variable) and by the harness' own 64-bit reference evaluation of the constraints. Restarts are
+/// frequent (low thresholds) and the composite branchers get half of the cases: their bookkeeping
+/// across restarts, backtracks and solutions is what this stream is after.
+fn mode_bigsearch(args: &Args) {
+    let mut master = Rng::new(args.seed ^ 0xB165EA);
+    for i in 0..args.cases {
+        let case_seed = master.next();
+        if only_skip(args, i) {
+            continue;
+        }
+        let mut r = Rng(case_seed);
+        let n = 6 + r.usize(5);
+        let aux = 3 + r.usize(8);
+        let mut m = Model::default();
+        for _ in 0..n {
+            m.vars.push(VarDecl { kind: VarKind::Interval, values: (0..n as i32).collect() });
+        }
+        for _ in 0..aux {
+            m.vars.push(VarDecl { kind: VarKind::Interval, values: vec![0, 1] });
+        }
+        let q = |i: usize, off: i32| View { scale: 1, offset: off, var: i };
+        m.cons.push(Cons::AllDiff((0..n).map(|i| q(i, 0)).collect()));
+        m.cons.push(Cons::AllDiff((0..n).map(|i| q(i, i as i32)).collect()));
+        m.cons.push(Cons::AllDiff((0..n).map(|i| q(i, -(i as i32))).collect()));
+        m.cons.push(Cons::LinLe((n..n + aux).map(|x| View { scale: 1, offset: 0, var: x }).collect(), aux as i32 - 2));
+        let mut setup = Setup::random(&mut r);
+        setup.opts.resolver_uip = true;
+        setup.opts.no_restarts = false;
+        setup.opts.base_interval = 1 + r.below(3);
+        setup.opts.min_conflicts = r.below(2);
+        if r.chance(1, 2) {
+            setup.bspec = config::BrancherSpec::Alternating(r.below(4) as u8, r.usize(3), r.usize(config::NUM_VALSEL));
+        }
+        let k = 1 + r.usize(5);
+        let id = format!("{}-{}", args.seed, i);
+        run_case(&id, &format!("scen=bigsearch n={} aux={} k={} seed={} {}", n, aux, k, case_seed, setup.describe()), |out| {
+            scen_bigsearch(&m, &setup, k, out)
+        });
+    }
+}
+
 /// C19: DRCP text and literal definitions
 fn mode_drcp(args: &Args) {
     let mut master = Rng::new(args.seed);
@@ -863,6 +906,7 @@ fn main() {
         "fix" => mode_fix(&args),
         "nlsearch" => mode_nlsearch(&args),
         "asg" => mode_asg(&args),
+        "bigsearch" => mode_bigsearch(&args),
         "proof" => mode_proof(&args),
         "configs" => mode_configs(&args),
         "interrupt" => mode_interrupt(&args),
